@@ -238,6 +238,8 @@ Definition first_lt (a b : list N) : bool :=
   | [], _ :: _ => true
   | x :: _, y :: _ => x <? y
   end.
+(* descending bytewise order: a strict total order in which the empty slice is the LAST element *)
+Definition rlex_lt (a b : list N) : bool := lex_lt b a.
 Definition always_true (a b : list N) : bool := true.
 Definition always_false (a b : list N) : bool := false.
 (* not a strict weak order: compares sums of bytes modulo 3 cyclically *)
